@@ -37,6 +37,34 @@ fn collapse(ctx: &Ctx, tcs: &[String], cfg: &Cfg) {
     }
 }
 
+/// (c') a list whose members all have the same std lower-casing collapses to the build of that one string.
+fn collapse_list(ctx: &Ctx, tcs: &[String], cfg: &Cfg) {
+    let lower: Vec<String> = tcs.iter().map(|t| t.to_lowercase()).collect();
+    if lower.iter().any(|l| *l != lower[0]) {
+        return;
+    }
+    // "differ only by case" is judged by the engine the property names: every member must be accepted by the
+    // case-insensitive literal of the lower-cased string (a capital the engine's fold tables do not know is kept
+    // as given by grex, and is not required to collapse)
+    let lit = match regex::Regex::new(&format!("(?i)^{}$", regex::escape(&lower[0]))) {
+        Ok(r) => r,
+        Err(_) => return,
+    };
+    if tcs.iter().any(|t| !lit.is_match(t)) {
+        return;
+    }
+    ctx.run.eval();
+    let one = vec![lower[0].clone()];
+    match (cfg.build(tcs), cfg.build(&one)) {
+        (Ok(a), Ok(b)) => {
+            if a != b {
+                crate::findings::report(ctx, viol("C04", "string", "case-variants-not-collapsed".into(), tcs, cfg, &a, json!({"expected_equal_to_build_of": one, "expected": b})));
+            }
+        }
+        (Err(m), _) | (_, Err(m)) => crate::findings::report(ctx, viol("C04", "panic", format!("panic:{}", m.chars().take(50).collect::<String>()), tcs, cfg, "", json!({"panic": m}))),
+    }
+}
+
 pub fn case_partner_lists() -> Vec<Vec<String>> {
     let mut pairs: Vec<Vec<String>> = vec![];
     for c in (0..=0x10FFFFu32).filter_map(char::from_u32) {
@@ -77,8 +105,9 @@ pub fn run(ctx: &Ctx) {
     par_for(pairs.len(), |i| {
         ctx.run.mark_nontrivial(hash_case(&pairs[i], &cfg_i));
         check_case(ctx, &pairs[i], &cfg_i);
+        collapse_list(ctx, &pairs[i], &cfg_i);
     });
-    ctx.run.space(json!({"universe": "every scalar with a single-scalar std lower- or upper-case partner p: lists [p,c], [c,p], [\"pc\"], [\"cp\"], [\"px\",\"cy\"], [\"Ap\",\"Ac\"], [\"Ac\",\"Ap\"] (list order as given)", "sets": pairs.len(), "settings": "i", "cases": pairs.len()}));
+    ctx.run.space(json!({"universe": "every scalar with a single-scalar std lower- or upper-case partner p: lists [p,c], [c,p], [\"pc\"], [\"cp\"], [\"px\",\"cy\"], [\"Ap\",\"Ac\"], [\"Ac\",\"Ap\"] (list order as given); each list whose members share one std lower-casing must build to exactly the build of that lower-cased string (collapse, every cased scalar incl. titlecase)", "sets": pairs.len(), "settings": "i", "cases": pairs.len()}));
     let bases: Vec<Cfg> = [0, R, X, G, E, D, W, ND, NW | NS].iter().map(|b| Cfg::new(I | b)).collect();
     let mut blocks = vec![Block::new(Universe::new("U_adv(A_case)", A_CASE, 2, 2, true), bases.clone(), "i x {{}, r, x, g, e, d, w, D, W+S}")];
     blocks.push(Block::new(Universe::new("U_adv(A_case)", A_CASE, 3, 1, false), bases.clone(), "i x {{}, r, x, g, e, d, w, D, W+S}"));
